@@ -34,7 +34,7 @@ F_BLOCK, F_RETURN, F_RAISE, F_RERAISE = 0, 1, 2, 3
 E_NOSTART = 50
 NOBS_GLOBAL = 7
 NOBS_CALL = 9
-THREAD_WAIT = 10.0     # a helper thread that does not reach its next stable point within this time is a failure
+THREAD_WAIT = 8.0     # a helper thread that does not reach its next stable point within this time is a failure
 
 
 class Boom(Exception):
@@ -127,6 +127,10 @@ class PortalRun:
         self.body_fut = None
         self.harness_errors: list[str] = []
         self.admin_tasks: list = []
+
+    def _tw(self) -> float:
+        """Bound for waiting on a helper thread; once the case has failed, do not spend time on further waits."""
+        return 0.3 if (self.mon or self.harness_errors) else THREAD_WAIT
 
     # ---- set-up / tear-down ---------------------------------------------------------------------------------
     def __enter__(self):
@@ -274,7 +278,7 @@ class PortalRun:
     def _wait_new_handle(self, before: set, thread: threading.Thread | None):
         """Wait until a helper thread has appended a handle to the ready queue (returns it) or has finished
         (returns None)."""
-        deadline = time.time() + THREAD_WAIT
+        deadline = time.time() + self._tw()
         while time.time() < deadline:
             for h in list(self.loop._ready):
                 if id(h) not in before:
@@ -440,7 +444,11 @@ class PortalRun:
     # ---- performing one op ------------------------------------------------------------------------------------
     def do(self, code: int, k: int = 0, a: int = 0, b: int = 0, c: int = 0, d: int = 0):
         before_int = {j for j, r in self.recs.items() if self.interruptible(r)}
-        res = self._perform(code, k, a, b, c, d)
+        try:
+            res = self._perform(code, k, a, b, c, d)
+        except HarnessError as e:
+            self.mon.append(f"helper thread stuck while performing {OPN.get(code, code)} {k}: {e}")
+            res = 98
         self.normalise()
         self._settle_threads()
         self.ops += [code, k, a, b, c, d]
@@ -470,12 +478,12 @@ class PortalRun:
 
             rec.thread = threading.Thread(target=caller, name=f"c15-caller-{k}", daemon=True)
             rec.thread.start()
-            if not rec.sig.wait(THREAD_WAIT):
+            if not rec.sig.wait(self._tw()):
                 raise HarnessError("caller thread did not reach the gate")
             rec.sig.clear()
             if rec.at_gate:
                 return 0
-            rec.thread.join(THREAD_WAIT)
+            rec.thread.join(self._tw())
             if isinstance(rec.caller[1], RuntimeError):
                 return 1
             self.harness_errors.append(f"issue of {k} ended with {rec.caller!r}")
@@ -500,9 +508,9 @@ class PortalRun:
             if new:
                 rec.task = new[0]
                 if rec.kind != KSTART:
-                    rec.thread.join(THREAD_WAIT)
+                    rec.thread.join(self._tw())
                 return 2
-            rec.thread.join(THREAD_WAIT)
+            rec.thread.join(self._tw())
             if rec.caller is not None and isinstance(rec.caller[1], RuntimeError):
                 return 3
             self.harness_errors.append(f"land of {k}: no task and caller={rec.caller!r}")
@@ -559,7 +567,7 @@ class PortalRun:
                     rec.fcancel_flipped = True
                 rec.fcancel_true = True
                 return 5                       # the flip happened: cancel() will return True once it lands
-            t.join(THREAD_WAIT)
+            t.join(self._tw())
             if "exc" in box:
                 self.harness_errors.append(f"Future.cancel of {k} raised {box['exc']!r}")
                 return 98
@@ -577,7 +585,7 @@ class PortalRun:
             rec.cancel_handle = None
             for t, box, hh in rec.cancel_threads:
                 if hh is h:
-                    t.join(THREAD_WAIT)
+                    t.join(self._tw())
                     if box.get("ret") is not True:
                         self.mon.append(f"Future.cancel() of call {k} that flipped the future returned {box!r}")
             return 7
@@ -615,7 +623,7 @@ class PortalRun:
         for rec in self.recs.values():
             if rec.kind == KSTART and rec.caller is None and rec.status_fut is not None and rec.status_fut.done() \
                     and rec.thread.is_alive() and rec.task is not None:
-                rec.thread.join(THREAD_WAIT)
+                rec.thread.join(self._tw())
                 if rec.thread.is_alive():
                     self.mon.append(f"start_task caller {rec.k} still blocked although its status future is resolved")
 
@@ -754,11 +762,11 @@ class PortalRun:
                             f"{len(self.tg._tasks)} tasks in the group, nothing runnable (deadlock)")
         for rec in self.recs.values():
             for t, box, h in rec.cancel_threads:
-                t.join(THREAD_WAIT)
+                t.join(self._tw())
                 if t.is_alive():
                     self.mon.append(f"thread cancelling the future of call {rec.k} is left hanging")
             if rec.thread is not None:
-                rec.thread.join(THREAD_WAIT if rec.caller is None else 0.5)
+                rec.thread.join(self._tw() if rec.caller is None else 0.5)
                 if rec.thread.is_alive():
                     self.mon.append(f"caller thread of call {rec.k} is left hanging (phase {self.phase(rec)})")
                     continue
@@ -945,7 +953,7 @@ def exhaustive_cases(ncalls: int, depth: int, kinds=(KCORO,), budget: int = 1000
 # ==================================================================================================================
 # Part (b): end-to-end with start_blocking_portal() and real caller threads (stock loop and uvloop)
 # ==================================================================================================================
-E2E_WAIT = 15.0
+E2E_WAIT = 6.0
 
 
 class E2ECall:
@@ -1229,12 +1237,107 @@ def run_e2e(tier: str, rng: random.Random):
         backends = backends[:1]
     for name, opts in backends:
         for i in range(n):
+            if sum(1 for m, _, _ in results if m) >= 3:
+                break
             seed = rng.randrange(1 << 30)
             mon, desc, flags = e2e_scenario(random.Random(seed), opts, f"{name}-{i}")
             desc["seed"] = seed
             desc["backend"] = name
             results.append((mon, desc, flags))
     return results, [b[0] for b in backends]
+
+
+def e2e_cancel_race(rounds: int, budget_s: float, backend_opts: dict, label: str):
+    """Probabilistic detector for preemptive interleavings the model does not have: caller threads cancel the
+    returned future while the task completes (switch interval 1e-6).  Whatever the interleaving, every future must end
+    cancelled or with the callable's value, the callable must have run once per call, and the portal must survive:
+    cancelling ONE future must never take down the other tasks.  Returns (monitor messages, stats)."""
+    import sys
+    from anyio.from_thread import start_blocking_portal
+
+    mon: list[str] = []
+    stats = {"label": label, "rounds": 0, "cancel_won": 0, "result_won": 0}
+    counter = {"n": 0}
+    lock = threading.Lock()
+    bystander = {"cancelled": False, "done": False}
+    release = threading.Event()
+    old = sys.getswitchinterval()
+    sys.setswitchinterval(1e-6)
+    try:
+        import anyio
+
+        async def bystander_fn():
+            try:
+                while not release.is_set():
+                    await anyio.sleep(0.001)
+                return 7
+            except CancelledError:
+                bystander["cancelled"] = True
+                raise
+            finally:
+                bystander["done"] = True
+
+        def fn():
+            counter["n"] += 1          # only ever runs in the loop thread
+            return 1
+
+        errors: list = []
+        deadline = time.time() + budget_s
+        try:
+            with start_blocking_portal("asyncio", backend_opts) as portal:
+                bfut = portal.start_task_soon(bystander_fn)
+
+                def worker():
+                    while time.time() < deadline and not errors:
+                        with lock:
+                            if stats["rounds"] >= rounds:
+                                return
+                            stats["rounds"] += 1
+                        try:
+                            f = portal.start_task_soon(fn)
+                            c = f.cancel()
+                            if c:
+                                if not f.cancelled():
+                                    errors.append("Future.cancel() returned True but the future is not cancelled")
+                                with lock:
+                                    stats["cancel_won"] += 1
+                            else:
+                                if f.result(E2E_WAIT) != 1:
+                                    errors.append("future resolved with a wrong value")
+                                with lock:
+                                    stats["result_won"] += 1
+                        except BaseException as e:  # noqa: BLE001
+                            errors.append(f"caller got {e!r} from a running portal")
+
+                ts = [threading.Thread(target=worker, daemon=True) for _ in range(4)]
+                for t in ts:
+                    t.start()
+                for t in ts:
+                    t.join(budget_s + E2E_WAIT)
+                    if t.is_alive():
+                        errors.append("stress caller thread left hanging")
+                try:
+                    if portal.call(lambda: 42) != 42:
+                        errors.append("probe call returned a wrong value")
+                except BaseException as e:  # noqa: BLE001
+                    errors.append(f"after the cancel/complete races the portal no longer answers: {e!r}")
+                if bystander["cancelled"]:
+                    errors.append("a bystander task was cancelled although only OTHER calls' futures were cancelled")
+                release.set()
+                try:
+                    if bfut.result(E2E_WAIT) != 7:
+                        errors.append("bystander future wrong")
+                except BaseException as e:  # noqa: BLE001
+                    errors.append(f"bystander call got {e!r}")
+        except BaseException as e:  # noqa: BLE001
+            errors.append(f"start_blocking_portal raised {e!r}")
+        if counter["n"] != stats["rounds"] and not errors:
+            errors.append(f"{stats['rounds']} calls issued but the callable ran {counter['n']} times")
+        mon += errors[:4]
+    finally:
+        sys.setswitchinterval(old)
+        release.set()
+    return mon, stats
 
 
 # ==================================================================================================================
@@ -1275,8 +1378,12 @@ def check(tier: str) -> int:
     n_corpus = len(runs)
     n_random = 450 if tier == "quick" else 12000
     for _ in range(n_random):
+        if sum(1 for r in runs if r.mon) >= 5:
+            break                                  # enough failing inputs: report them instead of piling up time-outs
         runs.append(random_case(rng, rng.choice([6, 10, 16, 24, 32])))
-    if tier == "quick":
+    if sum(1 for r in runs if r.mon) >= 5:
+        ex = []
+    elif tier == "quick":
         ex = exhaustive_cases(1, 5, kinds=(KCORO,)) + exhaustive_cases(1, 4, kinds=(KSTART,))
     else:
         ex = exhaustive_cases(1, 7, kinds=(KCORO,), budget=15000) + exhaustive_cases(1, 6, kinds=(KSTART, KSYNC), budget=15000) \
@@ -1308,6 +1415,11 @@ def check(tier: str) -> int:
 
     lap("model runs + vm_compute sample")
     e2e, backends = run_e2e(tier, rng)
+    race_rounds, race_budget = (12000, 6.0) if tier == "quick" else (150000, 40.0)
+    races = []
+    for name in backends:
+        rmon, rstats = e2e_cancel_race(race_rounds, race_budget, {"use_uvloop": True} if name == "uvloop" else {}, name)
+        races.append((rmon, rstats))
     lap("end-to-end runs")
     e2e_hits = [(mon, desc) for mon, desc, _ in e2e if mon]
 
@@ -1330,6 +1442,11 @@ def check(tier: str) -> int:
         rep.violation(mon[0], {"kind": "monitor", "part": "b (end-to-end, real threads)", "scenario": desc,
                                "all_messages": mon[:6],
                                "replay": "harness/c15.py: e2e_scenario(random.Random(seed), backend options, label)"})
+    for rmon, rstats in races:
+        if rmon:
+            rep.violation(rmon[0], {"kind": "monitor", "part": "b (end-to-end, cancel-vs-completion stress, probabilistic)",
+                                    "stats": rstats, "all_messages": rmon,
+                                    "replay": "harness/c15.py: e2e_cancel_race(rounds, budget_s, backend options, label)"})
     tie_broken = []
     if not proofs_ok:
         tie_broken.append("proof obligation: " + str(rep.coverage.get("proof_failure", {}).get("where")))
@@ -1341,7 +1458,7 @@ def check(tier: str) -> int:
         tie_broken.append(f"the implementation could not perform {impl_rejected} scripted ops")
     if not vm_ok and not disagreements:
         tie_broken.append("vm_compute sample disagrees with extracted model")
-    if tie_broken and not monitor_hits and not e2e_hits:
+    if tie_broken and not monitor_hits and not e2e_hits and not any(m for m, _ in races):
         d = min(disagreements, key=lambda d: len(d["ops"])) if disagreements else None
         rep.violation("; ".join(tie_broken), {"kind": "tie", "broken": tie_broken, "case": d, "vm_log": vm_log[-800:]},
                       no_input=True)
@@ -1392,7 +1509,12 @@ def check(tier: str) -> int:
         "impl_rejected_ops": impl_rejected,
         "monitor_hits": len(monitor_hits),
         "phase_seconds": phase_s,
-        "e2e": {"scenarios": len(e2e), "backends": backends, "monitor_hits": len(e2e_hits), "reached": e2e_flags},
+        "e2e": {"scenarios": len(e2e), "backends": backends, "monitor_hits": len(e2e_hits), "reached": e2e_flags,
+                "cancel_vs_completion_stress": {
+                    "what": "probabilistic detector (preemptive thread interleavings are not in the model): 4 caller threads "
+                            "cancel the returned future while the task completes, switch interval 1e-6; a hit is a VIOLATION, "
+                            "silence is no proof (hit rate against the tree before 4fd58ee is given in the C15 report)",
+                    "runs": [s for _, s in races], "hits": sum(1 for m, _ in races if m)}},
         "samples": [{"ncalls": runs[i].ncalls, "ops": readable(runs[i].ops)[:25], "outs": runs[i].outs[:50]} for i in idx[:2]]
                    + [e2e[0][1]] if e2e else [],
     })
